@@ -215,6 +215,15 @@ func H_C01(v *zzverif.T) {
 	var m *Model
 	var lerr error
 	mp := g.zzModelProto(inits)
+	if v.Has("dyninputs") && v.CBool("dyninputs") {
+		// the graph inputs are declared with symbolic dimensions only (any extents fit the signature)
+		for _, vi := range mp.Graph.Input {
+			sh := vi.Type.Value.(*onnx.TypeProto_TensorType).TensorType.Shape
+			for k := range sh.Dim {
+				sh.Dim[k] = &onnx.TensorShapeProto_Dimension{Value: &onnx.TensorShapeProto_Dimension_DimParam{DimParam: "n" + string(rune('0'+k))}}
+			}
+		}
+	}
 	if v.Has("opsets") {
 		// opset imports as "domain=version" (default: the default domain spelled "")
 		mp.OpsetImport = nil
